@@ -292,10 +292,20 @@ class SkoolWriter:
         return lines
 
     def write_skool(self):
-        for entry_index, entry in enumerate(self.disassembly.entries):
-            if entry_index:
+        prev_entry = None
+        for entry in self.disassembly.entries:
+            if prev_entry and not (prev_entry.footer and self._is_silent(entry)):
+                # A blank line after a footer would be read back as another
+                # (empty) footer block, so it is not written before a final
+                # 'i' entry that produces no output
                 write_line('')
             self._write_entry(entry)
+            prev_entry = entry
+
+    def _is_silent(self, entry):
+        return (entry.ctl == 'i' and entry.blocks[-1].end >= 65536 and not entry.has_title
+                and all([b.ctl == 'i' for b in entry.blocks]) and not entry.header
+                and not any(entry.asm_directives) and not entry.get_ignoreua_directive(TITLE))
 
     def _write_entry(self, entry):
         if entry.header:
